@@ -317,10 +317,19 @@ def run_shard(ctx):
         if ctx.tier == 'quick':
             pl = [s for k, s in enumerate(pl) if k % 3 == ctx.seed % 3 or
                   k >= len(pl) - 10]
+        seen = []
         for k, s in enumerate(pl):
             if ctx.mine(i):
                 check_molecule(ctx, {'lib': name, 'smiles': s,
                                      'as_mol': k % 17 == 3})
+                # ... and a molecule this library object decomposed two
+                # steps ago once more (A, B, A): "decomposed immediately
+                # before the estimate" also when it is not the first time
+                if len(seen) >= 2 and len(seen) % 3 == 0:
+                    ctx.count('molecules_revisited')
+                    check_molecule(ctx, {'lib': name, 'smiles': seen[-2],
+                                         'as_mol': False, 'revisit': True})
+                seen.append(s)
             i += 1
         lib = libs.get(name)
         for g in lib:
